@@ -154,9 +154,10 @@ PLAN["C15"] = dict(
 PLAN["C07"] = dict(
     level="other",
     functions=[(GFA, "GFA.write_gfa#L-line-from-start"), (GFA, "GFA.write_gfa#L-line-from-end"), (GFA, "GFA.write_gfa#both-loops"), (GFA, "GFA.write_gfa#links-of-one-node"),
-               (GFA, "GFA.add_edge"), (GFA, "GFA.add_node")],
+               (GFA, "GFA.sort_bo_no"), (GFA, "GFA.add_edge"), (GFA, "GFA.add_node")],
     lemmas=[gfa_c.lemma_exactly_once],
-    explanation="PROVED: for one node, the link lines written are exactly one L line (fields, signs, overlap, tags or none for the [0] sentinel) per entry "
+    explanation="PROVED: sort_bo_no (three loop nests: bucket by BO, sort each bucket by NO, concatenate in sorted BO order) returns every node of the set "
+                "exactly once, ascending in (BO, NO) - so, with the next fragment, the S lines of order_gfa's output are in (BO, NO) order. For one node, the link lines written are exactly one L line (fields, signs, overlap, tags or none for the [0] sentinel) per entry "
                 "of its start set, then of its end set, whose neighbour is among the written nodes and whose tags are stored under THIS end's key - "
                 "nothing else (ghost enumerations of the two sets, prefix counts, source map); with the edge_tags state in which every link has "
                 "non-empty tags under exactly one of its two keys (what read_graph builds when each link is declared by one L line: precondition, "
@@ -167,10 +168,12 @@ PLAN["C07"] = dict(
                 "add_edge stores exactly the declared link at both ends. BOUNDED: exactly-once emission per declared link (edge_tags keying), "
                 "S-before-L, (BO,NO) order, tag round trip, CSV rows, load->write->independent-reader equality.",
     trusted_base=["'\\t'.join / split round trip (assumed)", "Node.to_gfa_line caller view (an S line with the node id second); nodes[k].id == k (representation invariant, precondition)",
-                  "read_graph (file -> graph, incl. 'every link has tags under exactly one key'), (BO,NO) order of the S lines (sort_bo_no), CSV: BOUNDED stand-in only",
+                  "read_graph (file -> graph, incl. 'every link has tags under exactly one key'), CSV: BOUNDED stand-in only",
+                  "sort_bo_no: BO / NO values are the ints order_gfa stores (('i', <int>) tag values); sorted() = permutation + order (assumed); prefix offsets OFF defined over the sorted keys",
                   "an int stored in a string-typed list (the [0] sentinel) is represented by a reserved string code"],
     mutations=[
         dict(name="add_node swaps tag type and value", file=GFA, old="                self[node_id].tags[tag[0]] = (tag[1], tag[2])", new="                self[node_id].tags[tag[0]] = (tag[2], tag[1])", expect="add_node", functions=[(GFA, "GFA.add_node")], quick=False),
+        dict(name="sort_bo_no sorts the buckets by BO instead of NO", file=GFA, old='                separate_bubbles[bo], key=lambda x: int(self.nodes[x].tags["NO"][1])', new='                separate_bubbles[bo], key=lambda x: int(self.nodes[x].tags["BO"][1])', expect="sort_bo_no", functions=[(GFA, "GFA.sort_bo_no")]),
         dict(name="write_gfa looks the end-side tags up under the start-side key", file=GFA, old="                        tags = self.edge_tags[(n1, 1, n[0], n[1])]", new="                        tags = self.edge_tags[(n1, 0, n[0], n[1])]", expect="links-of-one-node", functions=[(GFA, "GFA.write_gfa#links-of-one-node")]),
         dict(name="write_gfa writes an S line after the links of a node", file=GFA, old='            for e in edges:\n                f.write(e + "\\n")\n\n        f.close()', new='            for e in edges:\n                f.write(e + "\\n")\n            f.write(self.nodes[n1].to_gfa_line() + "\\n")\n\n        f.close()', expect="write_gfa#both-loops", functions=[(GFA, "GFA.write_gfa#both-loops")]),
         dict(name="swap sign in one write_gfa branch", file=GFA, old='"\\t".join(["L", str(n1), "-", str(n[0]), "+", overlap] + tags)', new='"\\t".join(["L", str(n1), "-", str(n[0]), "-", overlap] + tags)', expect="write_gfa", functions=[(GFA, "GFA.write_gfa#L-line-from-start")]),
